@@ -101,13 +101,15 @@ inline bool in_contract(const Snap &s) { return history_in_contract() && state_v
 inline bool valid_for_c01(const Snap &s) { return in_contract(s) && !degenerate_faces(s); }
 // called AFTER the oracles of a step: only an operation that takes definitions from the caller (add_* / set_*) can legitimately
 // lead out of the contract; an invalid state after a deletion, swap, collection or toggle is the library's doing and is judged
-inline void note_history(const Snap &post, const std::string &op) {
-    if (!history_in_contract()) return;
+inline bool note_history(const Snap &post, const std::string &op) {          // true: the history has JUST left the contract
+    if (!history_in_contract()) return false;
     bool caller_defined = op.rfind("Add", 0) == 0 || op.rfind("Set", 0) == 0 || op.rfind("TAdd", 0) == 0 || op.rfind("HAdd", 0) == 0 || op.rfind("THalf", 0) == 0;
     if (caller_defined && !state_valid_for_c01(post)) {
         history_in_contract() = false;
         if (getenv("VERIF_DEBUG_CONTRACT")) fprintf(stderr, "history leaves the contract at %s\n", op.c_str());
+        return true;
     }
+    return false;
 }
 inline bool state_valid_for_c01(const Snap &s) {
     // the quantifier of C01: no halfface belongs to two live cells
